@@ -112,9 +112,17 @@ def run_case(host, defs, procs1, maxprocs, calls_spec):
     rg = R.Rig(plugins=plugins[:procs1])
     problems = []
     try:
-        rg.install([{'id': 'tpm', 'path': base, 'line': marks['measured'],
-                     'args': {'snapshot': 'no_collect', 'fire_count': '1', 'fire_period': '0'},
-                     'metrics': metric_messages(defs)}])
+        triggers = rg.install([{'id': 'tpm', 'path': base, 'line': marks['measured'],
+                                'args': {'snapshot': 'no_collect', 'fire_count': '1', 'fire_period': '0'},
+                                'metrics': metric_messages(defs)}])
+        # a tracepoint registered in code on the SAME line (a separate trigger, appended after the service's): its own
+        # metric is reported alongside
+        from deep.api.tracepoint.trigger import build_trigger
+        from deep.api.tracepoint.tracepoint_config import MetricDefinition
+        extra = build_trigger('tp-code', base, marks['measured'], {'snapshot': 'no_collect', 'fire_count': '-1',
+                                                                 'fire_period': '0'}, [],
+                              [MetricDefinition('extra', 'COUNTER')])
+        rg.handler.new_config(list(triggers) + [extra])
         for h, active in ((1, procs1), (2, maxprocs)):
             rg.cfg.plugins = plugins[:active]
             for p in plugins:
@@ -124,7 +132,11 @@ def run_case(host, defs, procs1, maxprocs, calls_spec):
                 problems.append('host changed / handler raised at hit %d: %r %r' % (h, res, rg.escaped))
                 break
             for pi in range(maxprocs):
-                got = [c_ for c_ in plugins[pi].calls if c_[0] == 'metric']
+                extras = [c_ for c_ in plugins[pi].calls if c_[0] == 'metric' and c_[2] == 'extra']
+                if len(extras) != (1 if pi < active else 0):
+                    problems.append('hit %d: processor %d received the metric of the code-registered tracepoint of the '
+                                    'line %d time(s)' % (h, pi + 1, len(extras)))
+                got = [c_ for c_ in plugins[pi].calls if c_[0] == 'metric' and c_[2] != 'extra']
                 exp = list(calls_spec[h - 1][pi]) if pi < len(calls_spec[h - 1]) else []
                 if len(got) != len(exp):
                     problems.append('hit %d: processor %d received %d call(s) %s, expected %d'
